@@ -26,12 +26,18 @@ var tmpls = []vlib.Tmpl{
 var uni = &vlib.Universe{Name: "dev", Tmpls: tmpls}
 var palette = []string{"a", "a/a", "eth1"} // a / a/a: two-key entries whose "/"-joined forms collide
 
+// palettes: the key values of a case (index 0 = the default ones); separators and characters with a meaning in
+// paths: '/', ' ', '_', ':' (IPv6 / MAC addresses), brackets, '=', '*'
+var palettes = [][]string{{"a", "a/a", "eth1"}, {"x:y", "fe80::1", "y"}, {"a", "a b", "b a"}, {"a_b", "a", "b_a"}, {"[z]", "k=v", "c.d"}, {"a", "a/b", "b/a"}}
+
 type Perturb struct {
 	Leaf vlib.LeafSel `json:"leaf"`
 	Kind string       `json:"kind"` // change | delete | extra
 }
 
 type Case struct {
+	// Pal: index into palettes
+	Pal int `json:"pal,omitempty"`
 	Intents  [][]vlib.LeafSel `json:"intents"` // owners 0..2, priority 10*(i+1)
 	Forms    []string         `json:"forms"`
 	Perturbs []Perturb        `json:"perturbs"`
@@ -46,6 +52,7 @@ type Case struct {
 
 func gen(t *rapid.T) *Case {
 	c := &Case{Streams: rapid.IntRange(1, 2).Draw(t, "streams")}
+	c.Pal = rapid.SampledFrom([]int{0, 0, 0, 1, 2, 3, 4, 5}).Draw(t, "palette")
 	n := rapid.IntRange(1, 3).Draw(t, "nintents")
 	for i := 0; i < n; i++ {
 		c.Intents = append(c.Intents, vlib.GenLeafSels(t, uni, 1, 6, "int"))
@@ -116,6 +123,7 @@ func denOf(p vlib.IPath, tv *sdcpb.TypedValue) string {
 }
 
 func Exec(c *Case) (nontrivial bool, labels []string, fail *vlib.Failure) {
+	palette = palettes[c.Pal%len(palettes)]
 	ctx := context.Background()
 	env := vlib.MustEnv()
 	hc := &vlib.HistCase{Universe: "plain", Palette: palette}
